@@ -441,6 +441,17 @@ func equalMethodInputParam(typ *types.Named) *types.Type {
 	return nil
 }
 
+// equalMethodOnValue returns whether the Equal method of the type is declared on the value and not on the pointer.
+func equalMethodOnValue(typ *types.Named) bool {
+	for i := 0; i < typ.NumMethods(); i++ {
+		if meth := typ.Method(i); meth.Name() == "Equal" {
+			_, onPointer := meth.Type().(*types.Signature).Recv().Type().(*types.Pointer)
+			return !onPointer
+		}
+	}
+	return false
+}
+
 func (g *gen) field(thisField, thatField string, fieldType types.Type) (string, error) {
 	fieldType = types.Unalias(fieldType)
 	if named, isNamed := fieldType.(*types.Named); isNamed {
@@ -468,13 +479,16 @@ func (g *gen) field(thisField, thatField string, fieldType types.Type) (string, 
 			inputType := equalMethodInputParam(named)
 			if inputType != nil {
 				ityp := *inputType
-				if _, ok := ityp.(*types.Pointer); ok {
+				_, isPointer := ityp.(*types.Pointer)
+				_, isInterface := ityp.(*types.Interface)
+				if isPointer || isInterface {
+					if equalMethodOnValue(named) {
+						// the method is called on what the pointer points to: a nil pointer is not handed to it
+						return fmt.Sprintf("((%[1]s == nil && %[2]s == nil) || (%[1]s != nil && %[2]s != nil && %[3]s.Equal(%[2]s)))", thisField, thatField, wrap(thisField)), nil
+					}
 					return fmt.Sprintf("%s.Equal(%s)", wrap(thisField), thatField), nil
-				} else if _, ok := ityp.(*types.Interface); ok {
-					return fmt.Sprintf("%s.Equal(%s)", wrap(thisField), thatField), nil
-				} else {
-					// fall through to deferencing of pointers
 				}
+				// fall through to deferencing of pointers
 			} else {
 				return fmt.Sprintf("%s(%s, %s)", g.GetFuncName(fieldType, fieldType), thisField, thatField), nil
 			}
